@@ -722,6 +722,33 @@ class ScriptGen:
         c = {"k": "define-fun", "name": name, "params": params, "ret": "Bool", "body": body}
         return c
 
+    def variant(self, t):
+        """A formula that shares its internal (simplified) form or its atoms with t but is a different term."""
+        rng = self.rng
+        if t.op in ("and", "or") and len(t.args) >= 2:
+            k = rng.randrange(4)
+            flat = []
+            for a in t.args:
+                flat += list(a.args) if a.op == t.op else [a]
+            if k == 0 and len(flat) >= 3:
+                return T(t.op, (T(t.op, tuple(flat[:2]), "Bool"),) + tuple(flat[2:]), "Bool")      # re-associated to the left
+            if k == 1 and len(flat) >= 3:
+                return T(t.op, tuple(flat[:-2]) + (T(t.op, tuple(flat[-2:]), "Bool"),), "Bool")    # re-associated to the right
+            if k == 2:
+                return T(t.op, tuple(reversed(t.args)), "Bool")                                     # commuted
+            return T(t.op, tuple(flat), "Bool") if len(flat) != len(t.args) else T(t.op, tuple(t.args) + (t.args[0],), "Bool")
+        k = rng.randrange(5)
+        if k == 0:
+            return T("not", (T("not", (t,), "Bool"),), "Bool")
+        if k == 1:
+            return T("and", (t, TRUE), "Bool")
+        if k == 2:
+            return T("or", (t, FALSE), "Bool")
+        other = self.tg.term("Bool", 1)
+        if other is None:
+            return T("and", (t, t), "Bool")
+        return T("and", (other, t), "Bool") if k == 3 else T("or", (t, other), "Bool")                 # t becomes a sub-term
+
     def history(self, ncmds, p=None, queries=(), query_fn=None, name_p=0.0):
         """Random push/pop/assert/check history.
         queries: kinds of get-* added after every check-sat;
@@ -752,6 +779,8 @@ class ScriptGen:
             if r < pr["assert_"]:
                 if popped and rng.random() < pr["reassert"]:
                     t = rng.choice(popped)
+                    if rng.random() < pr.get("variant", 0.5):
+                        t = self.variant(t)      # same meaning (or same atoms), different text: the popped one must leave no trace
                     if rng.random() < name_p:
                         t = T("!", (t,), "Bool", self.tg.fresh_name())
                     c = {"k": "assert", "term": t}
